@@ -67,6 +67,13 @@ func c02Absorbing(fn *types.Func) bool {
 		"(*private/bufpkg/bufimage/bufimageutil.transitiveClosure).addImport":
 		// set insertions
 		return true
+	case "(*private/bufpkg/bufimage/bufimageutil.transitiveClosure).excludeType",
+		"(*private/bufpkg/bufimage/bufimageutil.transitiveClosure).includeType":
+		// reviewed as a property of the callee, so that it holds wherever the roots are iterated: excludeType only
+		// inserts inclusionModeExcluded marks into the closure's element map (set union) or fails, conflicting marks
+		// are errors either way; includeType marks elements in the closure maps, marks only escalate
+		// (enclosing -> explicit) and imports are a set, so the fixed point does not depend on the order of the roots
+		return true
 	}
 	return false
 }
@@ -98,10 +105,6 @@ var c02Triage = map[string]triage{
 		"inverted index whose per-category rule-id lists are only consumed as sets (inserted into maps) by transformRuleOrCategoryID*ToRuleIDs"},
 	"private/bufpkg/bufcheck/bufcheckserver/internal/buflintvalidate.checkCEL/range map[string][]int#1": {"reason",
 		"the inlined closure only adds annotations through the order-absorbing response writer"},
-	"private/bufpkg/bufimage/bufimageutil.filterImage/range map[string]struct{}#1": {"reason",
-		"excludeType only inserts inclusionModeExcluded marks into the closure's element map (set union) or fails; conflicting marks are errors either way"},
-	"private/bufpkg/bufimage/bufimageutil.filterImage/range map[string]struct{}#2": {"reason",
-		"includeType marks elements in the closure maps; marks only escalate (enclosing→explicit) and imports are a set, so the fixed point does not depend on the order of the roots"},
 	"private/bufpkg/bufmodule/bufmoduleapi.moduleDataProvider.getCommitIDToUniversalProtoContentForRegistryAndIndexedModuleKeys/range map[github.com/google/uuid.UUID]private/pkg/slicesext.Indexed[private/bufpkg/bufmodule.ModuleKey]#1": {"reason",
 		"emits deprecation warnings to the logger only (stderr diagnostics, not an output named by the property)"},
 	"private/bufpkg/bufprotosource.mapToSortedFiles/range map[string]map[string]private/bufpkg/bufprotosource.File#1": {"reason",
